@@ -167,6 +167,17 @@ CLAIMED["C02"] = dict(
     note=TRUST + "; the code's FK5 rotation at the authoritative datetime and its Sun ephemeris; stated tolerance bands (undecided accepted both ways); photometric formulas checked for wiring only",
     engine="sensor-chain")
 
+CLAIMED["C17"] = dict(
+    text=("Detectors.tla is an explicit state machine of the three maneuver detectors in exact rational / BigNat arithmetic; TLC checks "
+          "the documented statistic over the whole history (DocStandard / DocSliding / DocFading), WindowIsLastW, the dof bookkeeping, "
+          "DetectIffReaches and MonotoneInLatest. Every TLC-enumerated or -simulate'd history (dimension varying per step, windows to "
+          "10, histories to length 50) is replayed into the real classes with inputs whose quadratic form is exactly the posed NIS "
+          "(metric to 1e-9, detection per threshold), and recorded runs of the real detectors through "
+          "SequentialFilter.checkManeuverDetection are validated by TLC against the same Step actions (TraceDetectors.tla)."),
+    ref="5 C17", technique="TLA+ spec Detectors.tla + TLC exhaustive and -simulate; spec->impl replay and impl->spec trace validation",
+    note=TRUST + "; scipy.stats.chi2.isf tabulates the bound per occurring dof (statistics within 1e-7 of it are undecided); numpy/scipy linear algebra builds the inputs",
+    engine="detectors")
+
 NOT_APPLICABLE = {
     "C13": ("an explicit TLA+ specification cannot evaluate a degree-20 spherical-harmonic gradient or analytic ephemerides; "
             "the property IS equality with an independent numerical reference, which would be differential testing, a "
